@@ -18,7 +18,7 @@ def build(shape, copy=False):
         for i, c in enumerate(fl):
             ty, meth = FIELD[c]
             a = {'Clone': {'method': meth}} if meth else {}
-            f = F(ty, S.FNAMES[i] if vk == 'named' else None, **a)
+            f = F(ty, S.fname(i, k, len(fl)) if vk == 'named' else None, **a)
             f.code = c
             fields.append(f)
         variants.append(V(S.VNAMES[k], vk, fields))
